@@ -40,7 +40,7 @@ def cases(tier, seed):
     for i in range(70 if tier == 'quick' else 6000):
         L = int(rng.choice([1, 2, 3, 4, 5, 8, 12, 16]))
         cs.append(dict(kind='run', L=L, M=int(rng.integers(1, 6)), alpha=float(alphas[int(rng.integers(1, len(alphas)))]), prob=['dahlquist', 'dahlquist_imex', 'heat', 'heatf', 'adv'][i % 5],
-                       avg=bool(rng.random() < 0.5), blocks=int(rng.integers(1, 3)), dtexp=float(rng.uniform(-2.5, -0.7)), seed=int(rng.integers(0, 2**31)), _cost=L * 6))
+                       avg=bool(rng.random() < 0.5), blocks=int(rng.integers(1, 4)), dtexp=float(rng.uniform(-2.5, -0.7)), t0=float(rng.choice([0.0, 1.0, -0.7, float(rng.uniform(-3, 5))])), seed=int(rng.integers(0, 2**31)), _cost=L * 6))
     for (L, al) in [(16, 1e-8), (16, 1e-9), (12, 1e-9), (8, 1e-10), (16, 1e-4), (5, 1e-10)]:
         for prob in ('dahlquist', 'heat'):
             cs.append(dict(kind='run', L=L, M=int(rng.integers(1, 4)), alpha=al, prob=prob, avg=False, blocks=1, dtexp=-1.5, seed=int(rng.integers(0, 2**31)), _cost=L * 6))
@@ -207,7 +207,7 @@ def run_run(case, r):
     L, M, alpha = case['L'], case['M'], case['alpha']
     dt = 10 ** case['dtexp']
     prob = case['prob']
-    r.key = f"run/{prob}/{L}/{M}/{alpha:g}/avg{case['avg']}/b{case['blocks']}"
+    r.key = f"run/{prob}/{L}/{M}/{alpha:g}/avg{case['avg']}/b{case['blocks']}/t0={case.get('t0', 0.0):.3g}"
     condJ = alpha ** (-(L - 1) / L)
     if condJ > 1e10:
         r.count('ill_conditioned')
@@ -338,9 +338,10 @@ def run_run(case, r):
     ctrl.it_ParaDiag = it_paradiag
     P = ctrl.MS[0].levels[0].prob
     u0 = P.u_exact(0.0)
-    Tend = case['blocks'] * L * dt
+    t0 = float(case.get('t0', 0.0))
+    Tend = t0 + (case['blocks'] * L - 0.5) * dt  # the controller completes the block it has started; half a step short avoids the floating-point tie at the block boundary
     try:
-        uend, stats = ctrl.run(u0, 0.0, Tend)
+        uend, stats = ctrl.run(u0, t0, Tend)
     except Exception as e:  # noqa
         from vf.core import in_sut
 
@@ -370,10 +371,13 @@ def run_run(case, r):
     prev = np.asarray(u0).reshape(-1).astype(complex)
     logged = get_sorted(stats, type='u', sortby='time')
     nsteps = case['blocks'] * L
-    r.check(len(logged) >= nsteps, 'all-steps-logged', f'{r.key}: {len(logged)} logged solutions for {nsteps} steps')
+    r.check(len(logged) == nsteps, 'all-steps-logged', f'{r.key}: {len(logged)} logged solutions for {nsteps} steps from t0={t0}')
+    for k in range(min(nsteps, len(logged))):
+        texp = t0 + (k + 1) * dt
+        r.check(abs(logged[k][0] - texp) <= 1e-12 * max(1.0, abs(texp)), 'step-times', f'{r.key}: step {k} ends at {logged[k][0]!r}, expected {texp!r} (t0={t0})')
     kappa = 1.0
     for k in range(min(nsteps, len(logged))):
-        G = np.array([g(k * dt + dt * c) for c in nodes])
+        G = np.array([g(t0 + k * dt + dt * c) for c in nodes])
         U, ninv = ref.collocation_solve(Q, Af, dt, prev, G)
         kappa = max(kappa, ninv)
         prev = U[-1]
